@@ -25,8 +25,10 @@ create_io / resolve_help_command / print_version`, `api/command/command.py: hand
 
 Nothing here changes what the existing models compute: `runApp` only calls them.
 
-Not modelled (parameters or assumptions, as in the small models): the text that is printed (C13
-for help pages, C10/C11 for the gates and the decoration); rendering a help page or the version
+Not modelled (parameters or assumptions, as in the small models): the text that is printed (C10/C11
+for the gates and the decoration; for help pages see `Model/AppHelp.lean`: `helpRun` is this model
+composed with the page model of C13, and `Props/C13.app_help_run_prints_page` proves status 0, no
+handler AND the text of the page under `widthOK`); here rendering a help page or the version
 line is taken to succeed (C13 `help_total` under `widthOK`); the error report is the parameter
 `render` of C04; `create_io` itself does not raise; other listeners than the two default ones.
 -/
